@@ -269,15 +269,35 @@ pub fn entries(tr: &mut Trace, rng: &mut Rng, thorough: bool) {
 pub fn layouts(tr: &mut Trace, rng: &mut Rng, thorough: bool) {
     let trailings: Vec<Vec<usize>> = if thorough { vec![vec![], vec![3], vec![2, 3], vec![2, 1, 3]] } else { vec![vec![], vec![3], vec![2, 3]] };
     for trailing in trailings {
-        for strat_i in 0..2 {
+        // with extrapolation (the range test is skipped), without it (every query passes the range test, which reads
+        // the axis), and periodic with extrapolation (out-of-range queries are wrapped using both axis ends)
+        for strat_i in 0..5 {
             tr.reset("layouts-1d");
             let n = 5;
             let x: Vec<f64> = gen::axis::<f64>(rng, n, "random");
             let mut shape = vec![n];
             shape.extend_from_slice(&trailing);
-            let data = gen::data::<f64>(rng, &shape, "uniform");
-            let strat = if strat_i == 0 { Strat1::Linear { ex: true } } else { Strat1::Spline { ex: true, bc: Bc::Global("Natural") } };
-            let pts = vec![x[0], x[n - 1], (x[1] + x[2]) / 2.0, x[3], x[n - 1] + 0.75];
+            let mut data = gen::data::<f64>(rng, &shape, "uniform");
+            let strat = match strat_i {
+                0 => Strat1::Linear { ex: true },
+                1 => Strat1::Spline { ex: true, bc: Bc::Global("Natural") },
+                2 => Strat1::Linear { ex: false },
+                3 => Strat1::Spline { ex: false, bc: Bc::Global("NotAKnot") },
+                _ => {
+                    let first = data.index_axis(ndarray::Axis(0), 0).to_owned();
+                    data.index_axis_mut(ndarray::Axis(0), n - 1).assign(&first);
+                    Strat1::Spline { ex: true, bc: Bc::Global("Periodic") }
+                }
+            };
+            let inside = strat_i == 2 || strat_i == 3;
+            let span = x[n - 1] - x[0];
+            let pts = if inside {
+                vec![x[0], x[n - 1], (x[1] + x[2]) / 2.0, x[3], (x[3] + x[4]) / 2.0]
+            } else if strat_i == 4 {
+                vec![x[0], x[n - 1] + 0.375 * span, (x[1] + x[2]) / 2.0, x[3] - 2.0 * span, x[n - 1] + 0.75]
+            } else {
+                vec![x[0], x[n - 1], (x[1] + x[2]) / 2.0, x[3], x[n - 1] + 0.75]
+            };
             // (store, data layout, x layout)
             let mut variants: Vec<(Store, Lay, Lay)> = vec![
                 (Store::Owned, Lay::C, Lay::C),
@@ -292,6 +312,10 @@ pub fn layouts(tr: &mut Trace, rng: &mut Rng, thorough: bool) {
             for l in [Lay::Strided, Lay::Rev, Lay::Window] {
                 variants.push((Store::View, Lay::C, l));
             }
+            // owned arrays keep the negative strides of a reversed view (to_owned() of a contiguous view)
+            variants.push((Store::Owned, Lay::C, Lay::Rev));
+            variants.push((Store::Owned, Lay::Rev, Lay::C));
+            variants.push((Store::Shared, Lay::PermTrail, Lay::Rev));
             let qcases: [(&'static str, Vec<usize>); 5] = [("Ix1", vec![4usize]), ("Ix2", vec![2, 2]), ("IxDyn", vec![2, 2]), ("Ix3", vec![2, 1, 2]), ("Ix0", vec![])];
             for (vi, (store, dlay, xlay)) in variants.into_iter().enumerate() {
                 let dr = real(&data, dlay);
@@ -338,8 +362,10 @@ pub fn layouts(tr: &mut Trace, rng: &mut Rng, thorough: bool) {
         let mut shape = vec![nx, ny];
         shape.extend_from_slice(&trailing);
         let data = gen::data::<f64>(rng, &shape, "uniform");
-        let px = vec![x[0], x[nx - 1], (x[1] + x[2]) / 2.0, x[1], x[nx - 1] + 0.5];
-        let py = vec![y[ny - 1], y[0], (y[0] + y[1]) / 2.0, y[1], y[0] - 0.25];
+        // one of the three data sets is queried without extrapolation (every query passes both range tests)
+        let ex = trailing.len() != 1;
+        let px = if ex { vec![x[0], x[nx - 1], (x[1] + x[2]) / 2.0, x[1], x[nx - 1] + 0.5] } else { vec![x[0], x[nx - 1], (x[1] + x[2]) / 2.0, x[1], (x[2] + x[3]) / 2.0] };
+        let py = if ex { vec![y[ny - 1], y[0], (y[0] + y[1]) / 2.0, y[1], y[0] - 0.25] } else { vec![y[ny - 1], y[0], (y[0] + y[1]) / 2.0, y[1], (y[1] + y[2]) / 2.0] };
         let mut variants: Vec<(Store, Lay, Lay, Lay)> = vec![
             (Store::Owned, Lay::C, Lay::C, Lay::C),
             (Store::Owned, Lay::F, Lay::C, Lay::C),
@@ -351,13 +377,16 @@ pub fn layouts(tr: &mut Trace, rng: &mut Rng, thorough: bool) {
         }
         variants.push((Store::View, Lay::C, Lay::Strided, Lay::Rev));
         variants.push((Store::View, Lay::C, Lay::Window, Lay::Strided));
+        variants.push((Store::View, Lay::C, Lay::Rev, Lay::C));
+        variants.push((Store::Owned, Lay::C, Lay::Rev, Lay::Rev));
+        variants.push((Store::Owned, Lay::RevTrail, Lay::C, Lay::Rev));
         let qcases: [(&'static str, Vec<usize>); 4] = [("Ix1", vec![4usize]), ("Ix2", vec![2, 2]), ("IxDyn", vec![2, 2]), ("Ix0", vec![])];
         for (vi, (store, dlay, xlay, ylay)) in variants.into_iter().enumerate() {
             let dr = real(&data, dlay);
             let xr = real1(&x, xlay);
             let yr = real1(&y, ylay);
             let cfg = Cfg2 { x: Some(&xr), y: Some(&yr), data: &dr, dtag: dtag_for(shape.len(), false), store };
-            let b = match do_build2(tr, &cfg, &Strat2::Bilinear { ex: true }, &[]) {
+            let b = match do_build2(tr, &cfg, &Strat2::Bilinear { ex }, &[]) {
                 Some(b) => b,
                 None => continue,
             };
@@ -786,6 +815,15 @@ fn casts_for<T: El>(tr: &mut Trace, rng: &mut Rng, thorough: bool) {
                 let q = arr_q(qshape, (0..nq).map(|i| pts[i % 3]).collect(), Lay::C);
                 b.q(tr, Entry::Array, tag, &q, Lay::C);
                 b.q(tr, Entry::ArrayInto, tag, &q, Lay::C);
+                // the same questions from reversed / strided / windowed query views and into such buffers: the fast path
+                // (static rank-1 query) and the general path must keep pairing query i with output row i
+                if nq == 3 {
+                    for (ql, bl) in [(Lay::Rev, Lay::C), (Lay::Strided, Lay::Rev), (Lay::C, Lay::Strided), (Lay::Window, Lay::C)] {
+                        let q = arr_q(qshape, (0..nq).map(|i| pts[i % 3]).collect(), ql);
+                        b.q(tr, Entry::Array, tag, &q, Lay::C);
+                        b.q(tr, Entry::ArrayInto, tag, &q, bl);
+                    }
+                }
                 // failing batches: the fast path must fail exactly like the general path
                 // (one bad element in the middle; two different bad elements)
                 if nq == 3 {
@@ -833,6 +871,14 @@ fn casts_for<T: El>(tr: &mut Trace, rng: &mut Rng, thorough: bool) {
                 let qy = arr_q(qshape, (0..nq).map(|i| py[i % 3]).collect(), Lay::C);
                 b.q(tr, Entry::Array, tag, &qx, &qy, Lay::C);
                 b.q(tr, Entry::ArrayInto, tag, &qx, &qy, Lay::C);
+                if nq == 3 {
+                    for (qlx, qly, bl) in [(Lay::Rev, Lay::C, Lay::C), (Lay::C, Lay::Rev, Lay::Rev), (Lay::Strided, Lay::Window, Lay::Strided), (Lay::Rev, Lay::Rev, Lay::C)] {
+                        let qx = arr_q(qshape, (0..nq).map(|i| px[i % 3]).collect(), qlx);
+                        let qy = arr_q(qshape, (0..nq).map(|i| py[i % 3]).collect(), qly);
+                        b.q(tr, Entry::Array, tag, &qx, &qy, Lay::C);
+                        b.q(tr, Entry::ArrayInto, tag, &qx, &qy, bl);
+                    }
+                }
                 if nq == 3 {
                     let lo = T::of_f64(-30.0);
                     let hi = T::of_f64(90.0);
